@@ -39,6 +39,9 @@ type profile struct {
 	waitAllPct  int
 	badAddrPct  int
 	busyPortPct int
+	tlsPct      int // the listener is TLS (mode 1 or 2)
+	startTLSPct int // a client upgrades with StartTLS (plain listener only)
+	misbehave   bool // C18: clients that do not satisfy the TLS configuration
 }
 
 func profileFor(prop, tier string) profile {
@@ -65,6 +68,7 @@ func profileFor(prop, tier string) profile {
 		base.extraFrames, base.bigPct, base.windowPct, base.pausePct, base.stallPct = 4, 10, 50, 20, 40
 		base.richResp = true
 		base.endings = []string{"", "", "", "close"}
+		base.tlsPct, base.startTLSPct = 10, 15
 	case "C06":
 		base.holdAll, base.maxConns, base.maxReqs, base.minReqs = true, 4, pick(40, 256), 1
 		base.endings = []string{""}
@@ -73,7 +77,7 @@ func profileFor(prop, tier string) profile {
 		base.maxConns, base.maxReqs = 4, 6
 		base.faults, base.faultBudget = []string{"reset", "accept", "pause"}, 3
 		base.endings = []string{"", "", "close", "reset", "midframe", "garbage"}
-		base.lateClient, base.panicPct, base.windowPct = true, 15, 20
+		base.lateClient, base.panicPct, base.windowPct = true, 3, 20
 		base.onClose = []int{0, 1}
 	case "C08":
 		base.maxConns, base.maxReqs = pick(5, 8), 5
@@ -83,6 +87,7 @@ func profileFor(prop, tier string) profile {
 		base.stopPct, base.timeoutPct = 25, 15
 		base.faults, base.faultBudget = []string{"reset", "clock"}, 2
 		base.extraFrames = 2
+		base.tlsPct, base.startTLSPct = 10, 15
 	case "C09":
 		base.maxConns, base.maxReqs = pick(10, 24), 3
 		base.endings = []string{"close", "close", "reset", "unbind", "", "halfclose"}
@@ -99,12 +104,23 @@ func profileFor(prop, tier string) profile {
 		base.endings = []string{"", "", "", "midframe-open", "close"}
 		base.windowPct, base.pausePct, base.stallPct = 30, 30, 20
 		base.onClose = []int{0, 1}
+		base.tlsPct, base.startTLSPct = 15, 10
+		base.misbehave = true
 	case "C12":
 		base.maxConns, base.maxReqs = pick(4, 8), 4
 		base.stopPct, base.stop2Pct = 80, 20
 		base.onClose = []int{1, 2, 2}
 		base.stallPct, base.longPct = 40, 10
 		base.endings = []string{"", "", "close", "midframe-open"}
+	case "C13":
+		base.maxConns, base.maxReqs = pick(4, 6), pick(6, 12)
+		base.startTLSPct = 85
+		base.endings = []string{"", "", "close"}
+		base.stallPct, base.extraFrames, base.richResp, base.rich = 30, 2, true, true
+	case "C18":
+		base.maxConns, base.maxReqs = pick(5, 8), 4
+		base.tlsPct, base.misbehave = 100, true
+		base.endings = []string{"", "", "close"}
 	case "C17":
 		base.maxConns, base.maxReqs = 2, 2
 		base.readyPoll, base.badAddrPct, base.busyPortPct = true, 25, 25
@@ -116,6 +132,7 @@ func profileFor(prop, tier string) profile {
 		base.stallPct, base.windowPct, base.pausePct, base.stopPct, base.stop2Pct = 30, 20, 10, 50, 5
 		base.extraFrames, base.readyPoll, base.richResp, base.rich = 3, true, true, true
 		base.timeoutPct = 10
+		base.tlsPct, base.startTLSPct = 15, 25
 	}
 	return base
 }
@@ -256,6 +273,13 @@ func DrawCore(prop, tier string, ch *Chooser, lean bool, s *Sim) *Core {
 		cfg.Addr = []string{"127.0.0.1:389", ":389", "[::1]:389", "::1:389", "0.0.0.0:389"}[ch.Choose(5)]
 	}
 
+	if prop == "C02" {
+		c.drawC02(ch, g, s, tier)
+		return c
+	}
+	if ch.Chance(p.tlsPct) {
+		cfg.TLSMode = 1 + ch.Choose(2)
+	}
 	nConns := ch.Int(1, p.maxConns)
 	if prop == "C11" || prop == "C12" {
 		nConns = ch.Int(0, p.maxConns)
@@ -264,13 +288,51 @@ func DrawCore(prop, tier string, ch *Chooser, lean bool, s *Sim) *Core {
 	for i := 0; i < nConns; i++ {
 		cl := &Client{Idx: i}
 		if ch.Chance(p.windowPct) {
-			cl.Window = []int{1, 7, 64, 1024, 5000}[ch.Choose(5)]
+			cl.Window = []int{7, 64, 512, 4096, 20000}[ch.Choose(5)]
 		}
 		if p.lateClient && i == nConns-1 && nConns > 1 {
 			cl.Late = ch.Choose(2) == 1
 		}
 		ending := p.endings[ch.Choose(len(p.endings))]
+		if cfg.TLSMode > 0 {
+			cl.Flavour = 1
+			if p.misbehave && ch.Choose(2) == 1 {
+				cl.Behaviour = []string{"plaintext", "garbage", "silent", "abandon", "nocert", "wrongca"}[ch.Choose(6)]
+				switch cl.Behaviour {
+				case "plaintext", "garbage", "silent", "abandon":
+					cl.Flavour, cl.Offending = 0, true
+				default:
+					cl.Offending = cfg.TLSMode == 2
+				}
+				cl.disturbed = cl.Offending
+			}
+		} else if ch.Chance(p.startTLSPct) {
+			cl.Flavour = 2
+		}
+		if cl.Flavour != 0 {
+			cl.Window = 0
+			switch ending {
+			case "", "close", "reset", "unbind":
+			default:
+				ending = ""
+			}
+		}
 		nReq := ch.Int(p.minReqs, p.maxReqs)
+		if cl.Behaviour == "garbage" || cl.Behaviour == "silent" || cl.Behaviour == "abandon" {
+			nReq = 0
+			if cl.Behaviour == "garbage" {
+				ending = "garbage"
+			}
+			if cl.Behaviour == "abandon" {
+				hello := append([]byte{0x16, 0x03, 0x01, 0x00, 0x60, 0x01, 0x00, 0x00, 0x5c, 0x03, 0x03}, ch.Bytes(12+ch.Choose(20))...)
+				cl.Steps = append(cl.Steps, CStep{Kind: stSend, Data: hello})
+			}
+		}
+		startTLSAt := -1
+		if cl.Flavour == 2 {
+			startTLSAt = ch.Choose(min(nReq, 2) + 1)
+			nReq++
+		}
 		if prop == "C05" || prop == "C06" {
 			// mostly small, sometimes deep
 			if ch.Choose(4) != 3 {
@@ -278,8 +340,8 @@ func DrawCore(prop, tier string, ch *Chooser, lean bool, s *Sim) *Core {
 			}
 		}
 		unbindAt := -1
-		if ending == "unbind" || (p.unbindPct > 0 && ch.Chance(p.unbindPct)) {
-			unbindAt = ch.Choose(nReq + 1)
+		if (ending == "unbind" || (p.unbindPct > 0 && ch.Chance(p.unbindPct))) && nReq+1 > startTLSAt+1 {
+			unbindAt = startTLSAt + 1 + ch.Choose(nReq-startTLSAt)
 			nReq++
 		}
 		var frames [][]byte
@@ -288,6 +350,8 @@ func DrawCore(prop, tier string, ch *Chooser, lean bool, s *Sim) *Core {
 			var rec *ReqRec
 			neg := false
 			switch {
+			case j == startTLSAt:
+				rec = &ReqRec{Op: "extended", MsgID: g.MsgID(), BindVersion: 3, ExtName: oidStartTLS}
 			case j == unbindAt:
 				rec = g.Request("unbind")
 			case ch.Chance(p.negPct) || (ending == "negative" && j == nReq-1):
@@ -308,6 +372,17 @@ func DrawCore(prop, tier string, ch *Chooser, lean bool, s *Sim) *Core {
 			q.BehindUnbind = unbindAt >= 0 && j > unbindAt
 			q.Inline = rec.Op == "unbind" || (rec.Op == "extended" && rec.ExtName == oidStartTLS)
 			c.drawScript(q, p, ch, g)
+			if j == startTLSAt {
+				q.Script.Panic = false
+				q.Script.Resps = []*RespSpec{{Ctor: "extended", HasCode: true, Code: 0}}
+				q.Script.StartTLS = true
+				q.Script.StallAfter = ch.Choose(4)
+			} else if rec.Op == "extended" && rec.ExtName == oidStartTLS {
+				rec.ExtName = "1.3.6.1.4.1.4203.1.11.3" // only the scripted upgrade uses the StartTLS name
+				t, _ = rec.TLV()
+				q.Bytes = t.Enc()
+				q.Inline = false
+			}
 			c.reqs[rec.MsgID] = q
 			reqs = append(reqs, q)
 			frames = append(frames, q.Bytes)
@@ -329,6 +404,10 @@ func DrawCore(prop, tier string, ch *Chooser, lean bool, s *Sim) *Core {
 		for j, f := range frames {
 			cur = append(cur, f...)
 			curReqs = append(curReqs, reqs[j])
+			if j <= startTLSAt {
+				flush(false)
+				continue
+			}
 			switch mode {
 			case 1:
 				flush(ch.Chance(p.waitAllPct))
@@ -339,7 +418,7 @@ func DrawCore(prop, tier string, ch *Chooser, lean bool, s *Sim) *Core {
 			}
 		}
 		flush(false)
-		if ch.Chance(p.pausePct) && len(cl.Steps) > 0 {
+		if ch.Chance(p.pausePct) && len(cl.Steps) > 0 && cl.Flavour == 0 {
 			at := ch.Choose(len(cl.Steps))
 			cl.Steps = append(cl.Steps[:at], append([]CStep{{Kind: stPause}}, cl.Steps[at:]...)...)
 		}
@@ -427,3 +506,71 @@ func (c *Core) drawScript(q *Req, p profile, ch *Chooser, g *Gen) {
 		}
 	}
 }
+
+// drawC02 plans one C02 run: a block of enumerated single-point mutants (or,
+// past the enumeration, sampled double mutants and byte damage), each on its
+// own connection between two valid requests, next to bystander connections.
+func (c *Core) drawC02(ch *Chooser, g *Gen, s *Sim, tier string) {
+	cfg := c.Cfg
+	initCanon()
+	const B = 6
+	nBlocks := (canonTotal + B - 1) / B
+	block := ch.Enum(nBlocks+1, s.RunIndex)
+	cfg.NoRecovery = ch.Choose(2) == 1
+	cfg.LogLevel = 1 + hclogLevel(ch.Choose(3))
+	s.Probes["C02-single-point-blocks-total"] = nBlocks
+	add := func(cl *Client, rec *ReqRec, bytes []byte, corrupt bool, desc string) {
+		q := &Req{Rec: rec, Bytes: bytes, Client: cl.Idx, Pos: len(cl.Steps) + 1, Corrupt: corrupt, Script: &Script{}}
+		if !corrupt {
+			q.Script.Resps = []*RespSpec{g.Resp(rec.Op, true, false)}
+		}
+		c.reqs[rec.MsgID] = q
+		cl.Steps = append(cl.Steps, CStep{Kind: stSend, Data: bytes, Reqs: []*Req{q}, WaitAll: !corrupt && len(cl.Steps) == 2})
+		if corrupt {
+			c.mutants = append(c.mutants, fmt.Sprintf("%s: %s", cl.name(), desc))
+		}
+	}
+	valid := func(cl *Client) {
+		rec := plainRequest(g)
+		t, _ := rec.TLV()
+		add(cl, rec, t.Enc(), false, "")
+	}
+	for k := 0; k < B; k++ {
+		cl := &Client{Idx: len(cfg.Clients)}
+		var frame []byte
+		var desc string
+		if block < nBlocks {
+			gi := block*B + k
+			if gi >= canonTotal {
+				break
+			}
+			frame, desc = singleMutant(gi)
+			s.Probes["C02-single-point-mutants"]++
+		} else if ch.Choose(3) == 0 {
+			frame, desc = byteDamage(ch)
+			s.Probes["C02-byte-damage"]++
+		} else {
+			frame, desc = doubleMutant(ch)
+			s.Probes["C02-double-point-mutants"]++
+		}
+		valid(cl)
+		add(cl, &ReqRec{Op: "mutant", MsgID: g.MsgID()}, frame, true, desc)
+		valid(cl)
+		if ch.Choose(3) == 0 {
+			cl.Steps = append(cl.Steps, CStep{Kind: stClose})
+		}
+		cfg.Clients = append(cfg.Clients, cl)
+	}
+	if block < nBlocks {
+		s.Probes["C02-single-point-block"]++
+	}
+	for k, nb := 0, 1+ch.Choose(2); k < nb; k++ {
+		cl := &Client{Idx: len(cfg.Clients)}
+		for j, n := 0, 1+ch.Choose(3); j < n; j++ {
+			valid(cl)
+		}
+		cfg.Clients = append(cfg.Clients, cl)
+	}
+}
+
+func hclogLevel(i int) hclog.Level { return hclog.Level(i) }
